@@ -45,15 +45,18 @@ pub fn check_betweenness(b: &Built, rec: &Recorder, c: &mut Counters, weighted_m
         if ob.iter().any(|q| q.1 != 1) {
             c.inc("graphs_with_fractional_dependencies");
         }
-        for normalized in [false, true] {
+        for (normalized, par) in [(false, false), (true, false), (false, true), (true, true)] {
             calls += 1;
-            let sub = format!("{}|bc:w={}:norm={}", b.case, weighted, normalized);
+            let sub = format!("{}|bc{}:w={}:norm={}", b.case, if par { "-par" } else { "" }, weighted, normalized);
             let mk = |clause: &str, detail: String| {
                 Violation::new(clause, "betweenness_centrality", sub.clone(), format!("{}\nweighted={weighted} normalized={normalized}\n{detail}", b.describe()))
                     .with_tags(b.tags())
                     .with_snippet(b.snippet(&format!("    let r = graphrs::algorithms::centrality::betweenness::betweenness_centrality(&g, {weighted}, {normalized}).unwrap();\n    // {}\n", detail.replace('\n', " "))))
             };
-            match guarded(|| betweenness::betweenness_centrality(&b.g, weighted, normalized)) {
+            graphrs::verif_hooks::set_parallel_override(if par { Some(true) } else { None });
+            let res = guarded(|| betweenness::betweenness_centrality(&b.g, weighted, normalized));
+            graphrs::verif_hooks::set_parallel_override(None);
+            match res {
                 Err(pi) => rec.record(mk("no_panic", pi.msg.clone()).with_panic(pi)),
                 Ok(Err(e)) => rec.record(mk("unexpected_error", format!("Err({:?})", e.kind))),
                 Ok(Ok(m)) => {
@@ -116,16 +119,19 @@ pub fn check_closeness(b: &Built, rec: &Recorder, c: &mut Counters, weighted_mod
                 c.inc("digraphs_with_asymmetric_distances");
             }
         }
-        for wf in [false, true] {
+        for (wf, par) in [(false, false), (true, false), (false, true), (true, true)] {
             calls += 1;
             let exp = closeness_oracle(&sim, wf);
-            let sub = format!("{}|cc:w={}:wf={}", b.case, weighted, wf);
+            let sub = format!("{}|cc{}:w={}:wf={}", b.case, if par { "-par" } else { "" }, weighted, wf);
             let mk = |clause: &str, detail: String| {
                 Violation::new(clause, "closeness_centrality", sub.clone(), format!("{}\nweighted={weighted} wf_improved={wf}\n{detail}", b.describe()))
                     .with_tags(b.tags())
                     .with_snippet(b.snippet(&format!("    let r = graphrs::algorithms::centrality::closeness::closeness_centrality(&g, {weighted}, {wf}).unwrap();\n    // {}\n", detail.replace('\n', " "))))
             };
-            match guarded(|| closeness::closeness_centrality(&b.g, weighted, wf)) {
+            graphrs::verif_hooks::set_parallel_override(if par { Some(true) } else { None });
+            let res = guarded(|| closeness::closeness_centrality(&b.g, weighted, wf));
+            graphrs::verif_hooks::set_parallel_override(None);
+            match res {
                 Err(pi) => rec.record(mk("no_panic", pi.msg.clone()).with_panic(pi)),
                 Ok(Err(e)) => rec.record(mk("unexpected_error", format!("Err({:?})", e.kind))),
                 Ok(Ok(m)) => {
